@@ -1,9 +1,11 @@
 package main
 
 import (
+	"bytes"
 	"context"
 	"crypto/rand"
 	"crypto/rsa"
+	"crypto/x509"
 	"encoding/base64"
 	"encoding/hex"
 	"encoding/json"
@@ -126,6 +128,16 @@ func (w *world) run(k *Case) (line, impl string) {
 	provID := ""
 	if k.Prov >= 0 && k.Prov < len(provs) {
 		provName, provID = provs[k.Prov].Name, provs[k.Prov].ID
+		if k.ProvSwap {
+			// the operator removed this provisioner and created another one with the SAME NAME:
+			// the object the authority serves under the name now has a different id (accounts,
+			// kids and stored locations contain only the name). Restored after the request.
+			po := e.Provs[provName]
+			old := po.ID
+			po.ID = old + "-recreated"
+			provID = po.ID
+			defer func() { po.ID = old }()
+		}
 	}
 	var ow *owner
 	if k.Own >= 0 && k.Own <= 2 {
@@ -249,6 +261,8 @@ func (w *world) run(k *Case) (line, impl string) {
 	}
 	// revoke always needs a certificate payload to get anywhere: valid/garbage only
 	var revCert *env.Issued
+	var subCert *x509.Certificate // the certificate actually submitted (the stored one, or a forgery)
+	var forgeKey *env.Key
 	if k.Route == "revoke" {
 		revCert = res
 		switch k.Payload {
@@ -257,7 +271,17 @@ func (w *world) run(k *Case) (line, impl string) {
 			plok = false
 		default:
 			if revCert.Cert != nil {
-				payload = []byte(fmt.Sprintf(`{"certificate":%q}`, b64(revCert.Cert.Raw)))
+				subCert = revCert.Cert
+				if k.Payload == "forged" {
+					// a self-signed certificate carrying the victim's SERIAL and the forger's own key
+					forgeKey = env.NewKey("es256", 0)
+					t := &x509.Certificate{SerialNumber: revCert.Cert.SerialNumber, Subject: revCert.Cert.Subject,
+						DNSNames: revCert.Cert.DNSNames, NotBefore: revCert.Cert.NotBefore, NotAfter: revCert.Cert.NotAfter}
+					if der, err := x509.CreateCertificate(rand.Reader, t, t, forgeKey.Public(), forgeKey.Priv); err == nil {
+						subCert, _ = x509.ParseCertificate(der)
+					}
+				}
+				payload = []byte(fmt.Sprintf(`{"certificate":%q}`, b64(subCert.Raw)))
 				plok = true
 			} else {
 				// a certificate this CA never issued: the requester's own self-made one is not needed;
@@ -277,6 +301,10 @@ func (w *world) run(k *Case) (line, impl string) {
 	case "cert":
 		if res.CertKey != nil {
 			signKey = res.CertKey
+		}
+	case "forge":
+		if forgeKey != nil {
+			signKey = forgeKey
 		}
 	}
 	if j.JwkOf == "rsa1024" {
@@ -481,8 +509,8 @@ func (w *world) run(k *Case) (line, impl string) {
 				jurl = fmt.Sprint(in.id("url:" + u))
 			}
 			pe = len(parsed.UnsafePayloadWithoutVerification()) == 0
-			if revCert != nil && revCert.Cert != nil && ns == 1 {
-				ck := &jose.JSONWebKey{Key: revCert.Cert.PublicKey}
+			if subCert != nil && ns == 1 {
+				ck := &jose.JSONWebKey{Key: subCert.PublicKey}
 				if th, err := acme.KeyToID(ck); err == nil {
 					ckey = in.id("key:" + th)
 					have := false
@@ -492,7 +520,7 @@ func (w *world) run(k *Case) (line, impl string) {
 						}
 					}
 					if !have {
-						v := env.Verify(body, revCert.Cert.PublicKey)
+						v := env.Verify(body, subCert.PublicKey)
 						vers = append(vers, fmt.Sprintf("%d:%s%s%s%s", ckey, c.B(v.Ver0), c.B(v.PadR), c.B(v.PadS), c.B(v.PadRS)))
 					}
 				}
@@ -558,9 +586,11 @@ func (w *world) run(k *Case) (line, impl string) {
 		}
 	}
 	revSerial := ""
-	if k.Route == "revoke" && revCert != nil && revCert.Cert != nil && plok {
-		revSerial = revCert.Cert.SerialNumber.String()
+	csame := true
+	if k.Route == "revoke" && subCert != nil && plok {
+		revSerial = subCert.SerialNumber.String()
 		if x, err := e.RealDB.GetCertificateBySerial(ctx, revSerial); err == nil {
+			csame = x.Leaf != nil && bytes.Equal(x.Leaf.Raw, subCert.Raw)
 			tgtN = in.id("res:" + x.ID)
 			rv, _ := e.Auth.IsRevoked(revSerial)
 			certF = fmt.Sprintf("%d:%d:%s", tgtN, in.id("acc:"+x.AccountID), c.B(rv))
@@ -603,9 +633,9 @@ func (w *world) run(k *Case) (line, impl string) {
 	cpath := strings.Contains(reqURL, "/"+provName+"/certificate/")
 	f["parsed"] = c.B(isParsed)
 	f["fresh"] = fmt.Sprint(in.id("nonce:" + fresh + "#fresh"))
-	line = fmt.Sprintf("req m=POST p=%s pid=%s pname=%s pknown=%s url=%s ct=%s cpath=%s parsed=%s fresh=%s tgt=%d tgt2=%d plok=%s deact=%s only=%s ckey=%d "+
+	line = fmt.Sprintf("req m=POST p=%s pid=%s pname=%s pknown=%s url=%s ct=%s cpath=%s parsed=%s fresh=%s tgt=%d tgt2=%d plok=%s deact=%s only=%s ckey=%d csame=%s "+
 		"ns=%d ue=%s ac=%s alg=%d es=%s short=%d jwk=%s kid=%d kb=%d kpre=%s nonce=%d jurl=%s ver=%s pe=%s nl=%s accs=%s ord=%s az=%s ch=%s cert=%s",
-		f["p"], f["pid"], f["pname"], f["pknown"], f["url"], f["ct"], c.B(cpath), f["parsed"], f["fresh"], tgtN, tgt2N, c.B(plok), c.B(deact), c.B(only), ckey,
+		f["p"], f["pid"], f["pname"], f["pknown"], f["url"], f["ct"], c.B(cpath), f["parsed"], f["fresh"], tgtN, tgt2N, c.B(plok), c.B(deact), c.B(only), ckey, c.B(csame),
 		ns, c.B(ue), ac, algN, c.B(es), short, jwkF, kidN, kbN, c.B(kpre), nonceN, jurl, verF, c.B(pe), c.B(nlBefore),
 		c.List(accL), ordF, azF, chF, certF)
 	js, _ := json.Marshal(k)
